@@ -63,6 +63,8 @@ func renderExpr(e Expr) string {
 	switch x := e.(type) {
 	case IntLit:
 		return strconv.FormatInt(x.V, 10)
+	case PaddedInt:
+		return x.Text
 	case BoolLit:
 		if x.V {
 			return "true"
